@@ -10,7 +10,9 @@ Blank == [kind |-> "", f |-> "", j |-> 0, k |-> <<>>, z |-> "", full |-> FALSE]
 QuickIdx == <<0, 1, 54, 55, 127, 128, 200, 201, 254, 255, (Seed * 37) % 256, (Seed * 91 + 13) % 256>>
 Chunks == IF Tier = "quick" THEN {QuickIdx} ELSE {[i \in 1 .. 16 |-> 16 * c + i - 1] : c \in 0 .. 15}
 FCl == {<<"random", 1>>, <<"random", 2>>, <<"unit", 0>>, <<"unit", 255>>, <<"unit", 128>>, <<"unitmax", 77>>, <<"const", 0>>, <<"x255", 0>>,
-        <<"max", 0>>, <<"linear", 5>>, <<"sparse", 3>>, <<"small", 4>>, <<"zero", 0>>}
+        <<"max", 0>>, <<"linear", 5>>, <<"sparse", 3>>, <<"small", 4>>, <<"zero", 0>>,
+        \* shaped relative to the index divided at
+        <<"rel:unit-1", 0>>, <<"rel:unit+1", 0>>, <<"rel:step", 0>>, <<"rel:plateau", 0>>, <<"rel:prefix", 0>>}
         \cup (IF Tier = "quick" THEN {} ELSE {<<"random", s>> : s \in 3 .. 10} \cup {<<"unit", s>> : s \in {1, 2, 100, 127, 129, 200, 254}})
 ZCl == {"256", "257", "2^64", "r-1", "r-2", "h", "rnd1", "rnd2", "300", "65536"} \cup (IF Tier = "quick" THEN {} ELSE {"rnd3", "rnd4", "rnd5", "rnd6", "511", "512", "1000000"})
 Cases == {[Blank EXCEPT !.kind = "divide", !.f = fc[1], !.j = fc[2], !.k = ch] : fc \in FCl, ch \in Chunks}
